@@ -13,7 +13,8 @@ import os, json, re
 from vlib import common
 
 STATEMENT_BITS = {
-    "panic": "unknown step or signal IDs yield errors, never panics",
+    "panic": "unknown step or signal IDs yield errors, never panics (and a call on valid IDs must reach its handler: "
+             "'the only step data that run's signal handlers ever see' presupposes they run)",
     "init_twice": "the per-run step data is created exactly once per run ID",
     "foreign_data": "... and is the only step data that run's signal handlers ever see",
     "nil_data": "... and is the only step data that run's signal handlers ever see",
@@ -64,6 +65,17 @@ def consume(ctx, cases, results, counts):
     trace = []
     for case, res in zip(cases, results):
         if res.get("crash"):
+            det = res.get("detail") or ""
+            m = re.search(r"fatal error: (concurrent map [a-z ]+)", det)
+            if m and "pluginsdk/schema" in det:
+                # the Go runtime itself reports unsynchronised access to a map of the SDK: evidence in hand,
+                # whether or not the schedule-dependent crash shows again on the two re-runs
+                fr = re.search(r"pluginsdk/schema\.\(\*?(\w+)\[[^\n]*?\]\)\.(\w+)|pluginsdk/(schema\.[\w.()*]+)\(", det)
+                frame = ("schema.%s.%s" % (fr.group(1), fr.group(2)) if fr and fr.group(1) else (fr.group(3) if fr else ""))
+                ctx.violation(dict(op="concurrent", case="setup", **{"class": "concurrent_map_access"}, frame=frame),
+                              dict(case=case, crash=m.group(1), reproduced=bool(res.get("reproduced")), detail=det[:4000],
+                                   statement=STATEMENT_BITS["data_race"]))
+                continue
             if not res.get("reproduced"):
                 raise common.Infra("unreproduced worker %s on case %s\n%s" % (
                     res["crash"], json.dumps(case)[:300], (res.get("detail") or "")[-1500:]))
@@ -89,6 +101,9 @@ def consume(ctx, cases, results, counts):
             counts[sh] += 1
             if r.get("followed"):
                 counts["followed"] += 1
+            elif case.get("racy"):
+                counts["raced"] += 1
+            counts["timeouts"] += r.get("timeouts", 0)
             same = len({(c["step"], c["run"]) for c in case["calls"]}) < len(case["calls"])
             ctx.distinct.add("%s/%s/%s" % (sh, "samekey" if same else "diffkey",
                                            "|".join(sorted(call_key(c) for c in case["calls"]))))
@@ -139,8 +154,12 @@ def validate_trace(ctx, trace, tag):
             cur = i
     if cur < len(trace):
         chunks.append((cur, len(trace)))
-    for n, (a, b) in enumerate(chunks):
-        part = trace[a:b]
+    rejected = 0
+    work = [trace[a:b] for a, b in chunks]
+    n = 0
+    while work:
+        part = work.pop(0)
+        n += 1
         tpath = os.path.join(ctx.tmp, "steps-trace-%s-%d.ndjson" % (tag, n))
         common.write_ndjson(tpath, part)
         tr = ctx.tlc("StepsTrace", "steps_trace.cfg", workers=1, env={"VERIF_TRACE": tpath},
@@ -163,9 +182,14 @@ def validate_trace(ctx, trace, tag):
         # order/detail of stages, which C11 does not fix: recorded as drift (and fails no verdict).
         idx = max(0, min(hw - 1, len(part) - 1))
         s0 = max(i for i in range(idx + 1) if part[i]["ev"] == "reset")
+        rejected += 1
         ctx.note_drift("trace_rejected", dict(line=part[idx], session=part[s0:idx + 1][:60],
                                               note="StepsTrace cannot take this line after the lines before it"))
-        total += max(0, hw - 2)
+        total += s0
+        nxt = next((i for i in range(idx + 1, len(part)) if part[i]["ev"] == "reset"), None)
+        if nxt is not None and rejected < 8:
+            work.insert(0, part[nxt:])       # carry on with the session after the rejected one
+    ctx.extra["trace_sessions_rejected"] = ctx.extra.get("trace_sessions_rejected", 0) + rejected
     return total
 
 
@@ -184,7 +208,7 @@ def run(ctx):
                 "of releases and arrivals at the gates (call begin, initializer, handler, return); distinct = "
                 "distinct (sequential|concurrent, same|different (step,run), multiset of call classes); non-trivial = "
                 "all (no default configuration exists); random sessions add distinct (kind, situation, behaviour)")
-    counts = dict(seq=0, conc=0, followed=0, drift=0, sessions=0, clean=0)
+    counts = dict(seq=0, conc=0, followed=0, drift=0, sessions=0, clean=0, raced=0, timeouts=0)
     cfgs = [("steps_thorough.cfg", "steps_thorough_full.cfg"), ("steps_thorough3.cfg", "steps_thorough3_full.cfg")] \
         if thorough else [("steps_quick.cfg", "steps_quick_full.cfg")]
     nvec = 0
@@ -222,11 +246,13 @@ def run(ctx):
     if trace:
         ctx.sample(dict(trace_head=trace[:6]))
     ctx.extra.update(schedules_replayed=nvec, schedules_sequential=counts["seq"], schedules_concurrent=counts["conc"],
-                     schedules_followed_exactly=counts["followed"], random_sessions=counts["sessions"],
+                     schedules_followed_exactly=counts["followed"],
+                     schedules_left_at_a_runtime_mutex_race=counts["raced"], arrival_timeouts=counts["timeouts"],
+                     random_sessions=counts["sessions"],
                      random_sessions_clean_and_trace_validated=counts["clean"], trace_lines=len(trace),
                      trace_lines_accepted=accepted)
-    ctx.log("schedules=%d (seq=%d conc=%d followed=%d) random sessions=%d clean=%d trace lines=%d accepted=%d drift=%d"
-            % (nvec, counts["seq"], counts["conc"], counts["followed"], counts["sessions"], counts["clean"],
+    ctx.log("schedules=%d (seq=%d conc=%d followed=%d raced=%d timeouts=%d) random sessions=%d clean=%d trace lines=%d accepted=%d drift=%d"
+            % (nvec, counts["seq"], counts["conc"], counts["followed"], counts["raced"], counts["timeouts"], counts["sessions"], counts["clean"],
                len(trace), accepted, len(ctx.drift)))
     for d in ctx.drift[:5]:
         ctx.log("drift:", d["what"], json.dumps(d["sample"], default=str)[:600])
@@ -248,7 +274,7 @@ def replay(ctx, rp):
     case = rp["replay"].get("case")
     if case is None:
         raise common.Infra("replay file has no case")
-    counts = dict(seq=0, conc=0, followed=0, drift=0, sessions=0, clean=0)
+    counts = dict(seq=0, conc=0, followed=0, drift=0, sessions=0, clean=0, raced=0, timeouts=0)
     path = os.path.join(ctx.tmp, "replay.ndjson")
     race = rp.get("signature", {}).get("class") == "data_race"
     reps = [case] * (5 if case.get("op") == "random" else 1)
